@@ -43,6 +43,14 @@ pub fn evo_case(case: &Value, dispatch: Dispatch, r: &mut Report) {
             let evs = t.stop();
             crate::trace::adt_events(&mut t, &evs);
             t.line(json!({"ev": "wend", "ok": enc.is_ok() as i32}));
+            // the same run seen as a behaviour of the writer machine (Trace_Writer.tla)
+            if let Some(wpath) = case.get("wtrace").and_then(|p| p.as_str()) {
+                if let Some(mut wt) = crate::trace::TraceFile::open(&json!({"trace": wpath})) {
+                    crate::trace::writer_events(&mut wt, &evs);
+                    wt.line(json!({"ev": "wend", "ok": enc.is_ok() as i32, "len": match &enc { Outcome::Ok(b) => b.len(), _ => 0 }}));
+                    wt.flush();
+                }
+            }
             if let Outcome::Ok(real) = &enc {
                 t.start();
                 let dec = rops.decode_top(real);
